@@ -444,7 +444,7 @@ def r7_lazy_application_forms_scale_and_do_not_look_ahead(ctx):
 REDUCERS = ("src/basilisp/lang/runtime.py", "src/basilisp/lang/vector.py", "src/basilisp/lang/map.py", "src/basilisp/lang/set.py", "src/basilisp/lang/list.py", "src/basilisp/lang/seq.py", "src/basilisp/lang/queue.py")
 
 
-@rule("C07.R5", floor=6)
+@rule("C07.R5", floor=4)
 def r5_reduce_unwraps_exactly_one_level(ctx):
     """Every reduce / reduce-kv loop of the runtime stops at a Reduced result and returns exactly
     `result.deref()`: one level.  The transducers rely on it: cat and mapcat hand an inner
